@@ -107,6 +107,7 @@ def c17(ctx):
     ctx.floor("R6", e, 55, "error exits extracted")
     nf = RG.rule_from_impls(ctx, prog)
     ctx.floor("R6", nf, 6, "error conversion impls")
+    RT.rule_quantiles_fill_value(ctx, prog)      # "Ok otherwise, never a panic": the empty-result shortcut precedes first().unwrap()
     return dict(
         level="other",
         explanation="Decision-table conformance of every fallible routine: the ordered sequence of error exits (guard condition class, "
